@@ -17,6 +17,8 @@ import copy
 import json
 import os
 import re
+import subprocess
+import time
 
 import vlib
 
@@ -34,6 +36,8 @@ GUARDS = [
     ("Cyclic", "MC_Cyclic_bug_advance.cfg", "AdvanceLaw"),
     ("Cyclic", "MC_Cyclic_bug_step.cfg", "StepLaw"),
     ("Cyclic", "MC_Cyclic_bug_ra.cfg", "RALaw"),
+    ("Cyclic", "MC_Cyclic_bug_post.cfg", "PostLaw"),
+    ("Cyclic", "MC_Cyclic_bug_subscript.cfg", "SubscriptLaw"),
     ("Spiral", "MC_Spiral_bug_rings.cfg", "Rings"),
     ("Spiral", "MC_Spiral_bug_indisk.cfg", "InDisk"),
     ("Spiral", "MC_Spiral_bug_norevisit.cfg", "NoRevisit"),
@@ -47,8 +51,138 @@ INPUT_KEYS = ("f", "T", "st", "via", "b", "e", "n", "bi", "ei", "E", "s", "len",
 OBSERVED_KINDS = ("int_iter", "enum_iter", "static_int_range")
 
 
-def build():
-    return vlib.build_harness("c18_ranges", ["c18_ranges.cpp"], libs=())
+# harness units (round 3): harness/c18_ranges.cpp is compiled once per unit (-DC18_U_<UNIT>) into its own
+# binary; (unit, record kinds, in the statement of C18?, what the unit drives).  A unit of functions named by
+# the statement that does not compile against the tree is a VIOLATION C18:<unit>:does-not-compile, the
+# observed-only unit an OBSERVATION; the other units are built, run and judged regardless.
+UNITS = [
+    ("int", ("int_range", "int_range_count", "int_range_wide"), True, "fcppt::int_range / make_int_range / make_int_range_count / int_iterator"),
+    ("enum", ("enum_range",), True, "fcppt::enum_::range / make_range / make_range_start / make_range_start_end / enum_::iterator"),
+    ("cyclic", ("cyclic", "cyclic_list", "cyclic_ra"), True, "fcppt::cyclic_iterator (through fcppt::iterator::base)"),
+    ("grid", ("spiral", "moore", "neumann"), True, "fcppt::container::grid::make_spiral_range / spiral_iterator / moore_neighbors / neumann_neighbors"),
+    ("iter", ("iter_range",), True, "fcppt::iterator::range / make_range / adapt_range"),
+    ("obs", ("int_range_rsize", "static_int_range", "int_iter", "enum_iter"), False,
+     "fcppt::range::size, fcppt::math::int_range / int_range_count, int_iterator and enum_::iterator taken by themselves"),
+]
+UNIT_OF_KIND = {k: u[0] for u in UNITS for k in u[1]}
+# TLC integers are 32-bit: every logged integer is clamped before judging - to the int32 range for the kinds whose
+# inputs are int32 values (the judge only compares them), to [-2^28, 2^28] for the others (the judge adds distances)
+CLAMP = 2 ** 28
+INT32_KINDS = ("int_range", "int_range_count", "int_range_rsize", "int_iter")
+MAX_RESTARTS = 6         # a unit is restarted behind a call that crashed / hung at most this often
+
+
+def genuine_compile_error(out):
+    """a diagnostic of the compiler about the code, as opposed to the compiler being killed / out of
+    memory / out of disk on the shared box (which is our infrastructure, never a verdict)"""
+    if re.search(r"Killed signal|internal compiler error|virtual memory exhausted|No space left|cannot allocate memory|std::bad_alloc", out):
+        return False
+    body = re.sub(r"^compile failed: [^\n]*\n?", "", out)
+    return re.search(r"error|note: |required from|In file included", body) is not None
+
+
+def first_error(out):
+    for l in out.splitlines():
+        if " error: " in l or "fatal error:" in l:
+            return re.sub(r"\s+", " ", l)[:400]
+    return out[-400:]
+
+
+def build(ctx, only=None):
+    """{unit: binary} for the units that compile against the tree under test"""
+    t0 = time.time()
+    units = [u for u in UNITS if only is None or u[0] in only]
+
+    def one(u):
+        for attempt in (1, 2):
+            try:
+                return u[0], vlib.build_harness("c18_" + u[0], ["c18_ranges.cpp"], libs=(), defs=("C18_U_" + u[0].upper(),), jobs=1), None
+            except vlib.Infra as e:
+                if genuine_compile_error(str(e)):
+                    return u[0], None, str(e)
+                if attempt == 2:
+                    raise
+                time.sleep(5)   # compiler killed on the shared box: once more
+    res = vlib.parallel(one, units, workers=min(len(units), vlib.NCPU))
+    bins, failed = {}, {}
+    for unit, b, err in res:
+        if err is None:
+            bins[unit] = b
+        else:
+            failed[unit] = err
+    if failed and len(failed) == len(units) and only is None:
+        # not a single unit compiles: is it the tree or our harness?  vjson.hpp alone must compile
+        p = subprocess.run(vlib.base_flags("none") + ["-fsyntax-only", "-x", "c++", os.path.join(vlib.HARNESS, "common", "vjson.hpp")],
+                           stdout=subprocess.PIPE, stderr=subprocess.STDOUT, text=True, errors="replace")
+        if p.returncode != 0:
+            raise vlib.Infra("harness/common/vjson.hpp does not compile:\n" + p.stdout[-2000:])
+    for unit, kinds, scope, what in units:
+        if unit not in failed:
+            continue
+        msg = "harness unit %s (harness/c18_ranges.cpp -DC18_U_%s: %s) does not compile against this tree: %s" % (
+            unit, unit.upper(), what, first_error(failed[unit]))
+        if scope:
+            ctx.reject("C18:%s:does-not-compile" % unit, msg, {"unit": unit})
+        else:
+            observe(ctx, unit, ["does-not-compile"], msg)
+    ctx.extra["units_not_compiling"] = sorted(failed)
+    vlib.log("build: %d units (%d do not compile) in %.1fs" % (len(units), len(failed), time.time() - t0))
+    return bins
+
+
+def clamp_record(x, lo=None, hi=None):
+    """(value with every integer clamped, changed?)"""
+    if lo is None:
+        lo, hi = (-2 ** 31, 2 ** 31 - 1) if isinstance(x, dict) and x.get("f") in INT32_KINDS else (-CLAMP, CLAMP)
+    if isinstance(x, bool):
+        return x, False
+    if isinstance(x, int):
+        y = max(lo, min(hi, x))
+        return y, y != x
+    if isinstance(x, float):
+        return hi, True
+    if isinstance(x, list):
+        ch, out = False, []
+        for v in x:
+            v2, c = clamp_record(v, lo, hi)
+            out.append(v2)
+            ch = ch or c
+        return out, ch
+    if isinstance(x, dict):
+        ch, out = False, {}
+        for k, v in x.items():
+            v2, c = clamp_record(v, lo, hi)
+            out[k] = v2
+            ch = ch or c
+        return out, ch
+    return x, False
+
+
+def record_unit(ctx, unit, binary, tier):
+    """Runs one unit, restarting it behind a call that crashed / hung.  Returns (complete record lines,
+    [(kind of failure, rc, partial line, output)], calls not driven because the restarts were used up?)."""
+    lines, fails, skip, gave_up = [], [], 0, False
+    for attempt in range(MAX_RESTARTS + 1):
+        path = os.path.join(ctx.workdir, "rec_%s_%d.ndjson" % (unit, attempt))
+        try:
+            os.unlink(path)
+        except OSError:
+            pass
+        rc, out = vlib.run_harness(binary, ["record", path, tier, skip], timeout=900 if tier == "quick" else 2400)
+        good, tail = vlib.check_trace_file(path) if os.path.exists(path) else ([], None)
+        good = [l for l in good if not l.startswith('{"e":"crash"')]
+        lines += good
+        if rc == 0:
+            break
+        fails.append(({66: "sanitizer", 67: "crash", 68: "hang", 124: "timeout"}.get(rc, "exit%d" % rc), rc, tail, out))
+        if tail is None or not re.search(r'"f":"(\w+)"', tail):
+            # died outside a driven call (start-up, exit, leak report): nothing to skip
+            break
+        if attempt == MAX_RESTARTS or sum(1 for f in fails if f[0] in ("hang", "timeout")) >= 2:
+            gave_up = True     # (every hang costs the watchdog time of one call: at most two of them)
+            break
+        skip += len(good) + 1
+    return lines, fails, gave_up
 
 
 def signature(b):
@@ -81,15 +215,17 @@ def observe(ctx, op, obs, line):
         vlib.log("OBSERVED (outside the statement of %s, not a violation): %s" % (PID, key))
 
 
-def judge_light(ctx, module, cfg, trace_path, nchunks=48, par=8, xmx="1200m", timeout=1500):
+def judge_light(ctx, module, cfg, trace_path, nchunks=48, par=8, xmx="1200m", timeout=1500, piece=None):
     """vlib.judge_trace with small JVM heaps and bounded parallelism (the machine is shared): the
     record file is split on line boundaries, every chunk is judged by its own single-worker TLC.
     Returns the rejected records {l (global 1-based line), op, why[]}."""
     nlines = sum(1 for _ in open(trace_path))
     nchunks = max(2, min(nchunks, nlines // 3000))
+    if piece:
+        nchunks = max(2, -(-nlines // piece))     # pieces small enough for RecordLoop to list every rejected record
     chunks = vlib.split_file(trace_path, nchunks)
 
-    def one(ch):
+    def one(ch, depth=0):
         p, first = ch
         r = vlib.tlc(module, cfg, workers=1, env={"TRACE": p}, timeout=timeout, tag=module + "_j", xmx=xmx)
         v = vlib._verdict_lines(r.out)
@@ -101,20 +237,20 @@ def judge_light(ctx, module, cfg, trace_path, nchunks=48, par=8, xmx="1200m", ti
             b = dict(b)
             b["l"] = b["l"] + first
             bad.append(b)
-        if vd["nbad"] > len(vd["bad"]):
-            # RecordLoop lists at most 300 rejected records per run: judge this chunk again in pieces
-            # of 250 records so that nothing (in particular nothing in scope) is dropped
+        if vd["nbad"] > len(vd["bad"]) and depth < 6 and not any(split_why(b["why"])[0] for b in bad):
+            # RecordLoop lists at most 300 rejected records per run.  If one of those listed is in scope the verdict
+            # of this chunk is settled (a flood of rejections - a mutant that breaks every record - must not cost
+            # thousands of TLC runs); if all of them are observed-only, the records behind the last one listed are
+            # judged again so that an in-scope rejection cannot hide behind a flood of observations.
             ls = open(p).read().splitlines()
-            bad, gen = [], r.generated
-            for k in range(0, len(ls), 250):
-                q = "%s.sub%d" % (p, k)
+            last = max(b["l"] for b in bad) - first
+            if last < len(ls):
+                q = "%s.rest%d" % (p, depth)
                 with open(q, "w") as fh:
-                    fh.write("\n".join(ls[k:k + 250]) + "\n")
-                b2, g2 = one((q, first + k))
+                    fh.write("\n".join(ls[last:]) + "\n")
+                b2, g2 = one((q, first + last), depth + 1)
                 os.unlink(q)
-                bad += b2
-                gen += g2
-            return bad, gen
+                return bad + b2, r.generated + g2
         return bad, r.generated
     res = vlib.parallel(one, chunks, workers=par)
     bad = []
@@ -129,50 +265,75 @@ def judge_light(ctx, module, cfg, trace_path, nchunks=48, par=8, xmx="1200m", ti
     return sorted(bad, key=lambda b: b["l"])
 
 
-def judge_file(ctx, path, what, rc, out):
-    lines, tail = vlib.check_trace_file(path)
-    crash = [l for l in lines if l.startswith('{"e":"crash"')]
-    lines = [l for l in lines if not l.startswith('{"e":"crash"')]
-    if crash and rc == 0:
-        raise vlib.Infra("crash record in a trace of a harness that exited 0")
-    if rc != 0:
-        op = "?"
-        if tail:
-            m = re.search(r'"f":"(\w+)"', tail)
-            op = m.group(1) if m else "?"
-        kind = {66: "sanitizer", 67: "crash", 68: "hang", 124: "timeout"}.get(rc, "exit%d" % rc)
-        san = re.search(r"(ERROR: \w+Sanitizer: [^\n]*|runtime error: [^\n]*|Assertion [^\n]*)", out)
-        payload = {"partial_line": tail}
+def report_failures(ctx, unit, scope, fails, gave_up, what):
+    """crashes / sanitizer aborts / hangs / undocumented exceptions of the code under test in a harness run
+    are verdicts (Clarification 2): VIOLATION for a unit of functions named by the statement, OBSERVATION
+    for the observed-only unit"""
+    for kind, rc, tail, out in fails:
+        m = re.search(r'"f":"(\w+)"', tail or "")
+        op = m.group(1) if m else unit
+        if not m:
+            kind += "-outside-a-call"
+        san = re.search(r"(ERROR: \w+Sanitizer: [^\n]*|runtime error: [^\n]*|Assertion [^\n]*|terminate called[^\n]*\n?[^\n]*)", out or "")
+        payload = {"partial_line": tail, "unit": unit}
         if tail:
             try:
                 payload["record"] = inputs_of(json.loads(re.sub(r",\s*$", "", tail) + "}"))
             except ValueError:
                 pass
-        if op in OBSERVED_KINDS:
-            observe(ctx, op, [kind], tail or "")
+        msg = "%s during %s (%s, unit %s): %s" % (kind, op, what, unit, san.group(1) if san else (out or "")[-300:])
+        if scope and op not in OBSERVED_KINDS:
+            ctx.reject("C18:%s:%s" % (op, kind), msg, payload)
         else:
-            ctx.reject("C18:%s:%s" % (op, kind), "%s during %s (%s): %s" % (kind, op, what, san.group(1) if san else out[-300:]), payload)
-        with open(path, "w") as f:
-            f.write("\n".join(lines) + ("\n" if lines else ""))
+            observe(ctx, op, [kind], msg)
+    if gave_up:
+        vlib.log("unit %s: more than %d failing calls, the rest of the unit was not driven" % (unit, MAX_RESTARTS))
+        ctx.extra.setdefault("units_cut_short", []).append(unit)
+
+
+def judge_lines(ctx, tagged, what, name="recorded"):
+    """tagged: [(record line, observed only?)].  Clamps absurd integers, drops lines that are not records,
+    judges with TLC and turns unexplained records into violations / observations.  Returns the judged lines."""
+    lines, obs_only = [], []
+    for l, oo in tagged:
+        try:
+            rec = json.loads(l)
+        except ValueError:
+            continue          # (check_trace_file already dropped these)
+        if not isinstance(rec, dict) or "f" not in rec:
+            continue
+        rec2, changed = clamp_record(rec)
+        if changed:
+            l = json.dumps(rec2, separators=(",", ":"))
+            ctx.extra["records_with_clamped_integers"] = ctx.extra.get("records_with_clamped_integers", 0) + 1
+        lines.append(l)
+        obs_only.append(oo)
     if not lines:
         return lines
+    path = os.path.join(ctx.workdir, name + ".ndjson")
+    with open(path, "w") as f:
+        f.write("\n".join(lines) + "\n")
     bad = judge_light(ctx, JUDGE, JUDGE_CFG, path)
     ctx.evaluations += len(lines)
     if not hasattr(ctx, "unexplained"):
         ctx.unexplained = set()
     for b in bad:
-        ctx.unexplained.add(lines[b["l"] - 1])
+        line = lines[b["l"] - 1]
+        ctx.unexplained.add(line)
         ins, obs = split_why(b["why"])
+        if obs_only[b["l"] - 1]:
+            # the observed-only unit re-uses drivers of in-scope kinds (with fcppt::range::size switched on)
+            obs, ins = obs + [w for w in ins if w != "HARNESS-PRECONDITION"], [w for w in ins if w == "HARNESS-PRECONDITION"]
         if obs:
-            observe(ctx, b["op"], obs, lines[b["l"] - 1])
+            observe(ctx, b["op"], obs, line)
         if not ins:
             continue
         b = dict(b, why=ins)
+        rec = json.loads(line)
         if "HARNESS-PRECONDITION" in b["why"]:
-            raise vlib.Infra("harness record outside its own input space at line %d of %s: %s" % (b["l"], path, lines[b["l"] - 1][:300]))
-        rec = json.loads(lines[b["l"] - 1])
+            raise vlib.Infra("harness record outside its own input space at line %d of %s: %s" % (b["l"], path, line[:300]))
         ctx.reject(signature(b), "%s: Ranges.tla cannot explain %s (%s); record: %s" % (
-            what, b["op"], ",".join(b["why"]), lines[b["l"] - 1][:500]), {"record": inputs_of(rec), "observed": rec})
+            what, b["op"], ",".join(b["why"]), line[:500]), {"record": inputs_of(rec), "observed": rec})
     return lines
 
 
@@ -200,6 +361,9 @@ def count_classes(ctx, lines):
             n, ln = r["n"], r["len"]
             ctx.count_class((f, ln, r["start"], "0" if n == 0 else ("+" if n > 0 else "-"),
                              "lt" if abs(n) < ln else ("eq" if abs(n) == ln else ("mult" if abs(n) % ln == 0 else "gt"))))
+        elif f == "cyclic_list":
+            n, ln = r["n"], r["len"]
+            ctx.count_class((f, ln, "0" if n == 0 else ("+" if n > 0 else "-"), "lt" if abs(n) < ln else ("mult" if abs(n) % ln == 0 else "gt")))
         elif f == "cyclic_ra":
             n, ln = r["n"], r["len"]
             ctx.count_class((f, ln, "0" if n == 0 else ("+" if n > 0 else "-"), "lt" if abs(n) < ln else ("mult" if abs(n) % ln == 0 else "gt"),
@@ -232,7 +396,7 @@ def corruptions(recs):
 
     def _one(r):
         f = r["f"]
-        key = f + r.get("T", "") if f == "int_range" else f
+        key = (f + r.get("T", "") if f == "int_range" else f) + ("+rsize" if r.get("rsize", -1) >= 0 and f in ("int_range", "enum_range", "spiral", "iter_range") else "")
         if cnt.get(key, 0) >= PER_KEY:
             return
         cur[0] = key
@@ -242,6 +406,9 @@ def corruptions(recs):
             mut(r, lambda x: x["seq"].append(x["seq"][-1] + 1), "sequence")
             if "size" in r:
                 mut(r, lambda x: x.__setitem__("size", x["size"] - 1), "size")
+            if r.get("w2", True) and len(r.get("seq2", [])) >= 3:
+                mut(r, lambda x: x["seq2"].pop(0), "sequence-by-post-increment")
+                mut(r, lambda x: x["seq2"].append(x["seq2"][-1] + 1), "sequence-by-post-increment")
             if r.get("rsize", -1) >= 0:
                 mut(r, lambda x: x.__setitem__("rsize", x["rsize"] + 1), "range-size")
             cnt[key] = cnt.get(key, 0) + 1
@@ -249,6 +416,7 @@ def corruptions(recs):
             mut(r, lambda x: x["seq"].pop(), "sequence")
             mut(r, lambda x: x["seq"].__setitem__(0, x["seq"][1]), "sequence")
             mut(r, lambda x: x.__setitem__("size", x["size"] + 1), "size")
+            mut(r, lambda x: x["seq2"].pop(0), "sequence-by-post-increment")
             cnt[key] = cnt.get(key, 0) + 1
         elif f == "cyclic" and r["len"] >= 3 and abs(r["n"]) >= 4:
             ln = r["len"]
@@ -258,13 +426,31 @@ def corruptions(recs):
             mut(r, lambda x: x.__setitem__("plus", (x["plus"] + 1) % ln), "operator-plus")
             mut(r, lambda x: x.__setitem__("sub", (x["sub"] + 1) % ln), "operator-minus")
             mut(r, lambda x: x.__setitem__("advv", x["advv"] + 1), "dereference")
+            mut(r, lambda x: x.__setitem__("npa", (x["npa"] + 1) % ln), "operator-plus-commuted")
+            mut(r, lambda x: x.__setitem__("minus", (x["minus"] + 1) % ln), "operator-minus")
+            mut(r, lambda x: x.__setitem__("subi", (x["subi"] + 1) % ln), "subscript")
+            mut(r, lambda x: x.__setitem__("subi", x["start"] + x["n"]), "leaves-boundary")      # plain pointer arithmetic
+            mut(r, lambda x: x.__setitem__("arrow", (x["arrow"] + 1) % ln), "arrow")
+            mut(r, lambda x: x["olds"].__setitem__(0, x["steps"][0]), "step-return-values")       # post-increment returns the new position
+            mut(r, lambda x: x.__setitem__("w2", (x["w2"] + 1) % ln), "step-return-values")
+            mut(r, lambda x: x.__setitem__("preself", False), "step-return-values")
+            cnt[key] = cnt.get(key, 0) + 1
+        elif f == "cyclic_list" and r["len"] >= 3 and abs(r["n"]) >= 4:
+            ln = r["len"]
+            mut(r, lambda x: x["steps"].__setitem__(2, (x["steps"][2] + 1) % ln), "single-steps")
+            mut(r, lambda x: x["steps"].__setitem__(1, -99), "leaves-boundary")
+            mut(r, lambda x: x["olds"].__setitem__(0, x["steps"][0]), "step-return-values")
             cnt[key] = cnt.get(key, 0) + 1
         elif f == "cyclic_ra" and r["len"] >= 3 and r["i"] != r["j"] and r["n"] not in (0,):
             ln = r["len"]
             mut(r, lambda x: x.__setitem__("apn", (x["apn"] + 1) % ln), "operator-plus")
             mut(r, lambda x: x.__setitem__("back", (x["back"] + 1) % ln), "plus-then-minus")
             mut(r, lambda x: x.__setitem__("reach", (x["reach"] + 1) % ln), "advance-by-difference")
-            mut(r, lambda x: x.__setitem__("sub", x["sub"] + 1), "subscript")
+            mut(r, lambda x: x.__setitem__("sub", x["sub"] + 1), "subscript-value")
+            mut(r, lambda x: x.__setitem__("subi", (x["subi"] + 1) % ln), "subscript")
+            mut(r, lambda x: x.__setitem__("arrow", (x["arrow"] + 1) % ln), "arrow")
+            mut(r, lambda x: x.__setitem__("pdecret", (x["pdecret"] + 1) % ln), "increment-return-values")
+            mut(r, lambda x: x.__setitem__("pdec", (x["pdec"] + 1) % ln), "decrement")
             mut(r, lambda x: x.__setitem__("lt", not x["lt"]), "ordering-vs-difference")
             mut(r, lambda x: x.__setitem__("eq", not x["eq"]), "equality")
             mut(r, lambda x: x.__setitem__("postold", (x["postold"] + 1) % ln), "increment-return-values")
@@ -289,7 +475,9 @@ def corruptions(recs):
             mut(r, lambda x: x["vis"].pop(), "not-the-manhattan-disk")
             mut(r, lambda x: x["vis"].__setitem__(3, x["vis"][2]), "position-visited-twice")
             mut(r, lambda x: x["vis"].reverse(), "distance-decreases")
-            mut(r, lambda x: x.__setitem__("rsize", x["rsize"] + 1), "range-size")
+            if r["rsize"] >= 0:
+                mut(r, lambda x: x.__setitem__("rsize", x["rsize"] + 1), "range-size")
+            mut(r, lambda x: x["vis2"].pop(0), "walk-by-post-increment")
             cnt[key] = cnt.get(key, 0) + 1
         elif f in ("moore", "neumann"):
             mut(r, lambda x: x["r"].__setitem__(0, x["p"]), f + "-neighbours")
@@ -329,12 +517,12 @@ def sensitivity_guard(ctx, lines):
     """corrupt copies of records the judge currently explains completely (records with any reason - a
     violation or an observation - are no candidates); a kind whose records are all unexplained is skipped"""
     unexpl = getattr(ctx, "unexplained", set())
-    cand = [l for l in lines[::97] + [l for l in lines if '"f":"int_range"' not in l] if l not in unexpl]
+    cand = [l for l in lines[::97] + [l for l in lines if '"f":"int_range"' not in l or '"rsize":-1' not in l] if l not in unexpl]
     recs = [json.loads(l) for l in cand]
     cor = corruptions(recs)
     kinds = set(c[0]["f"] for c in cor)
     touched = set(json.loads(l)["f"] for l in unexpl)
-    need = {"int_range", "int_range_count", "int_range_rsize", "int_range_wide", "enum_range", "cyclic", "spiral", "moore", "neumann",
+    need = {"int_range", "int_range_count", "int_range_rsize", "int_range_wide", "enum_range", "cyclic", "cyclic_list", "spiral", "moore", "neumann",
             "iter_range", "static_int_range", "cyclic_ra", "int_iter", "enum_iter"}
     missing = need - kinds - touched
     if missing:
@@ -342,13 +530,31 @@ def sensitivity_guard(ctx, lines):
     p = os.path.join(ctx.workdir, "corrupted.ndjson")
     vlib.write_ndjson(p, [c[0] for c in cor])
     # (RecordLoop lists at most 300 rejected records per run; judge_light re-judges in pieces of 250)
-    bad = {b["l"]: b["why"] for b in judge_light(ctx, JUDGE, JUDGE_CFG, p, nchunks=4, par=4)}
+    bad = {b["l"]: b["why"] for b in judge_light(ctx, JUDGE, JUDGE_CFG, p, par=4, piece=250)}
     check_corruptions(ctx, cor, bad)
     ctx.extra["judge_sensitivity"]["kinds_skipped_because_unexplained"] = sorted((need - kinds) & touched)
 
 
 def run(ctx):
     thorough = ctx.tier == "thorough"
+    # the harness units are compiled while TLC checks the specification
+    import concurrent.futures
+    pool = concurrent.futures.ThreadPoolExecutor(max_workers=1)
+    build_f = pool.submit(build, ctx)
+    try:
+        _model_checks(ctx, thorough)
+    except BaseException:
+        try:
+            build_f.result()
+        except Exception:
+            pass
+        raise
+    finally:
+        pool.shutdown(wait=True)
+    _code_to_spec(ctx, build_f.result())
+
+
+def _model_checks(ctx, thorough):
     # 1. the specification itself
     for t in ("i8", "u8"):
         vlib.tlc_mc(ctx, "IntIter", "MC_IntIter_%s_edge.cfg" % t, workers=8, xmx="2g")
@@ -363,11 +569,22 @@ def run(ctx):
             raise vlib.Infra("vacuity guard: %s/%s did not violate %s" % (mod, cfg, inv))
         return {"module": mod, "cfg": cfg, "violates": inv}
     ctx.extra["vacuity_guards"] = vlib.parallel(guard, GUARDS, workers=6)
-    # 2. code -> spec
-    binary = build()
-    tpath = os.path.join(ctx.workdir, "recorded.ndjson")
-    rc, out = vlib.run_harness(binary, ["record", tpath, ctx.tier], timeout=1600)
-    lines = judge_file(ctx, tpath, "exhaustive enumeration", rc, out)
+
+
+def _code_to_spec(ctx, bins):
+    # 2. code -> spec: every unit in its own process (restarted behind a failing call)
+    scope_of = {u[0]: u[2] for u in UNITS}
+    t0 = time.time()
+    res = vlib.parallel(lambda u: (u, record_unit(ctx, u, bins[u], ctx.tier)), [u[0] for u in UNITS if u[0] in bins], workers=vlib.NCPU)
+    vlib.log("harness: %d units recorded in %.1fs" % (len(res), time.time() - t0))
+    tagged, clean = [], True
+    # the long unit last: a flood of rejected int_range records (RecordLoop lists 300 per chunk) does not hide the others
+    for unit, (ulines, fails, gave_up) in sorted(res, key=lambda x: x[0] == "int"):
+        report_failures(ctx, unit, scope_of[unit], fails, gave_up, "exhaustive enumeration")
+        clean = clean and not fails
+        tagged += [(l, not scope_of[unit]) for l in ulines]
+        ctx.extra.setdefault("records_per_unit", {})[unit] = len(ulines)
+    lines = judge_lines(ctx, tagged, "exhaustive enumeration")
     # every record is the walk of one range / iterator from begin() to end() (or one batch of
     # single steps): one behaviour of the corresponding machine
     ctx.traces_validated += sum(1 for l in lines if '"seq":' in l or '"vis":' in l or '"steps":' in l)
@@ -379,7 +596,7 @@ def run(ctx):
                 if pat in l:
                     ctx.sample(json.loads(l))
                     break
-        if rc == 0 and not ctx.violations:
+        if clean and not ctx.violations and len(bins) == len(UNITS):
             sensitivity_guard(ctx, lines)
     ctx.exhaustive = True
     ctx.rule = ("exhaustive enumeration by the harness: every (b,e) and every count of int8_t/uint8_t (strong typedefs of both: every pair in the "
@@ -398,15 +615,35 @@ def run(ctx):
 
 
 def replay(ctx, payload):
-    binary = build()
-    rec = payload["payload"].get("record")
+    pl = payload["payload"]
+    rec = pl.get("record")
+    if pl.get("unit") and not rec:
+        # a unit that did not compile / died outside a call: build (and run) that unit again
+        unit = pl["unit"]
+        bins = build(ctx, only=(unit,))
+        if unit in bins:
+            lines, fails, gave_up = record_unit(ctx, unit, bins[unit], "quick")
+            report_failures(ctx, unit, True, fails, gave_up, "replay")
+            judge_lines(ctx, [(l, False) for l in lines], "replay", "replay_unit")
+        ctx.traces_validated += 1
+        ctx.count_class("replay")
+        ctx.count_class("replay2")
+        ctx.rule = "replay of one harness unit"
+        return
     if not rec:
         raise vlib.Infra("replay file carries no record")
-    ipath = os.path.join(ctx.workdir, "replay_in.ndjson")
-    vlib.write_ndjson(ipath, [rec])
-    opath = os.path.join(ctx.workdir, "replay_out.ndjson")
-    rc, out = vlib.run_harness(binary, ["replay", ipath, opath], timeout=300)
-    judge_file(ctx, opath, "replay", rc, out)
+    unit = UNIT_OF_KIND.get(rec.get("f"), "obs")
+    bins = build(ctx, only=(unit,))
+    if unit in bins:
+        ipath = os.path.join(ctx.workdir, "replay_in.ndjson")
+        vlib.write_ndjson(ipath, [rec])
+        opath = os.path.join(ctx.workdir, "replay_out.ndjson")
+        rc, out = vlib.run_harness(bins[unit], ["replay", ipath, opath], timeout=300)
+        good, tail = vlib.check_trace_file(opath) if os.path.exists(opath) else ([], None)
+        good = [l for l in good if not l.startswith('{"e":"crash"')]
+        if rc != 0:
+            report_failures(ctx, unit, unit != "obs", [({66: "sanitizer", 67: "crash", 68: "hang", 124: "timeout"}.get(rc, "exit%d" % rc), rc, tail, out)], False, "replay")
+        judge_lines(ctx, [(l, unit == "obs") for l in good], "replay", "replay")
     ctx.traces_validated += 1
     ctx.count_class("replay")
     ctx.count_class("replay2")
